@@ -320,6 +320,11 @@ func c12Eval(c *Ctx, kind string, raw []byte) {
 func c12RefDirect(c *Ctx, ref *refRes, run *c12RunRes, from int, v string) {
 	if !ref.OK {
 		c.Dist("reference:outside-its-domain")
+		why := ref.Why
+		if i := strings.IndexAny(why, "\"("); i > 0 {
+			why = strings.TrimSpace(why[:i])
+		}
+		c.Dist("reference:outside-its-domain:" + why)
 		return
 	}
 	c.Dist("reference:compared")
